@@ -252,6 +252,7 @@ def _arrangement(draw):
         i = draw(st.integers(0, len(roles)))
         trip = draw(st.sampled_from([['cb', 'user_data'], ['cb', 'user_data', 'destroy'], ['cb', 'destroy'],
                                      ['cancellable', 'async', 'user_data'], ['cb', 'data'], ['cb', 'intdata'],
+                                     ['cb', 'destroy', 'user_data'], ['cb', 'int', 'user_data'], ['cb', 'destroy', 'int', 'data'],
                                      ['user_data', 'cb'], ['cb', 'otherptr']]))
         roles[i:i] = trip
     if draw(st.integers(0, 2)) == 0:
@@ -358,20 +359,26 @@ def _check_arrangement(case, ctx):
                     break
                 seg.append(rr)
             ncand = sum(1 for rr in seg if rr in ('user_data', 'data'))
-            if seg.count('destroy') > 1:
-                ctx.label('undecided:several-destroy')
-            elif nxt in ('user_data', 'data') and ncand > 1:
+            cand = [j for j, rr in enumerate(seg) if rr in ('user_data', 'data')]
+            dest = [j for j, rr in enumerate(seg) if rr == 'destroy']
+            # "a user_data pointer following a callback becomes its closure, a destroy-notify following it
+            # becomes its destroy": asserted when the segment up to the next callback holds exactly one
+            # candidate of each kind (several candidates: the statement does not say which - undecided)
+            if len(cand) == 1:
+                if clo != str(i + 1 + cand[0]):
+                    raise Violation('closure-not-paired', '%s: segment %r: closure=%r' % (where, seg, clo))
+                ctx.label('pair')
+            elif len(cand) > 1:
                 ctx.label('undecided:several-user-data')
-            elif nxt in ('user_data', 'data'):
-                if clo != str(i + 1):
-                    raise Violation('closure-not-paired', '%s followed by %s: closure=%r' % (where, nxt, clo))
-                if nxt2 == 'destroy':
-                    if des != str(i + 2) or scope != 'notified':
-                        raise Violation('destroy-not-paired', '%s: destroy=%r scope=%r' % (where, des, scope))
-                ctx.label('triple' if nxt2 == 'destroy' else 'pair')
-            elif nxt == 'destroy':
-                if des != str(i + 1) or scope != 'notified':
-                    raise Violation('destroy-not-paired', '%s: destroy=%r scope=%r' % (where, des, scope))
+            if len(dest) == 1:
+                if des != str(i + 1 + dest[0]) or scope != 'notified':
+                    raise Violation('destroy-not-paired', '%s: segment %r: destroy=%r scope=%r' % (where, seg, des, scope))
+                if len(cand) == 1:
+                    ctx.label('triple')
+                    if cand[0] > dest[0]:
+                        ctx.label('triple:destroy-before-data')
+            elif len(dest) > 1:
+                ctx.label('undecided:several-destroy')
         if clo is not None and r in ('cb', 'async'):
             tgt = int(clo)
             if not (0 <= tgt < len(exp_roles)):
